@@ -174,9 +174,14 @@ class HMap:
 
     @staticmethod
     def key(k):
-        if isinstance(k, list):
-            return tuple(k)
-        if isinstance(k, (int, str, tuple)) and not isinstance(k, bool):
+        """hashable structural form of a concrete key: derived Hash / Eq compare all fields"""
+        if isinstance(k, Ref):
+            k = k.get()
+        if isinstance(k, (list, tuple)):
+            return tuple(HMap.key(x) for x in k)
+        if isinstance(k, dict):
+            return tuple(sorted((f, HMap.key(v)) for f, v in k.items()))
+        if isinstance(k, (int, str)) or k is None:
             return k
         raise Unsupported(f"abstract HashMap key {k!r}")
 
@@ -257,6 +262,10 @@ class Mini:
             return self.ev(H.unwrap_async(r["hir"]), env)
         except _Return as e:
             return e.v
+        except (TypeError, KeyError, IndexError, AttributeError, ValueError) as e:
+            # a value shape the interpreter has no model for: report it like any other unsupported construct, so that
+            # the calling rule says "not interpretable - review" instead of the whole check dying with a tool error
+            raise Unsupported(f"value shape not modelled in {path.split('::')[-1]} ({type(e).__name__}: {e})")
         finally:
             self.crate = old
             self.depth -= 1
@@ -533,6 +542,8 @@ class Mini:
             raise Panic(f"{mac}!")
         if mac in ("format", "format_args"):
             return "<formatted text>"  # message texts are not part of any decided clause
+        if mac in ("eprintln", "println", "eprint", "print"):
+            return ()
         t = H.tag(n)
         if t == "lit":
             if n[1] == "int":
@@ -1113,10 +1124,14 @@ class Mini:
                     raise Panic("unwrap on None")
                 return recv[1]
         if p.startswith("std::result::Result::<T, E>::"):
-            if nm == "unwrap":
+            if nm in ("unwrap", "expect"):
                 if recv[0] != "Ok":
-                    raise Panic("unwrap on Err")
+                    raise Panic(f"{nm} on Err")
                 return recv[1]
+            if nm == "unwrap_or_else":
+                return recv[1] if recv[0] == "Ok" else self.apply(args[0], [recv[1]])
+            if nm == "unwrap_or":
+                return recv[1] if recv[0] == "Ok" else args[0]
             if nm == "map_err":
                 return recv
             if nm == "ok":
